@@ -421,7 +421,10 @@ def _check(cls, corpus, corpus2, opts):
     an_s, an_m = sk.build_analyzer(), ml.build_analyzer()
     for doc in corpus:
         gs, gm = an_s(doc), an_m(doc)
-        flat = all(isinstance(k, tuple) and all(isinstance(x, str) for x in k) for k in gm)
+        lo_n, hi_n = kw.get("ngram_range", (1, 1))
+        # "n-grams kept as token tuples": every key is a tuple of lo_n..hi_n single tokens (a word token holds no blank)
+        flat = all(isinstance(k, tuple) and all(isinstance(x, str) and " " not in x for x in k)
+                   and lo_n <= len(k) <= hi_n for k in gm)
         if not flat:
             bad.append((site + ":analyzer-key-not-flat-tuple", "an n-gram is not a flat tuple of tokens",
                         [show_key(k) for k in gm][:8], "tuples of str whose join is %r" % gs[:8]))
